@@ -48,6 +48,11 @@ func main() {
 			runtime.ReadMemStats(&ms)
 			if ms.HeapAlloc > limit || time.Since(t0) > maxWall {
 				fmt.Printf("INFRA: resource budget exceeded while checking %s (heap %d MB, %s): the check is broken on this tree\n", *prop, ms.HeapAlloc>>20, time.Since(t0).Round(time.Second))
+				if os.Getenv("TV_DEBUG") != "" {
+					buf := make([]byte, 1<<16)
+					n := runtime.Stack(buf, true)
+					fmt.Fprintf(os.Stderr, "%s\n", buf[:n])
+				}
 				os.Exit(2)
 			}
 		}
